@@ -1,6 +1,6 @@
 SPECIFICATION GSpec
 CONSTANTS K = 2
-          N = 3
+          N = 2
           MaxDepth = 3
           NodeKinds = {"b", "h", "f"}
           RootKinds = {"b", "h"}
